@@ -463,10 +463,12 @@ class TLSRecordLayer(object):
         :rtype: iterable
         :returns: A generator; see above for details.
         """
-        try:
-            if self.closed:
-                raise TLSClosedConnectionError("attempt to write to closed connection")
+        # nothing is sent, so this is not a write failure that would
+        # invalidate the session
+        if self.closed:
+            raise TLSClosedConnectionError("attempt to write to closed connection")
 
+        try:
             applicationData = ApplicationData().create(bytearray(s))
             for result in self._sendMsg(applicationData, \
                                         randomizeFirstBlock=True):
